@@ -39,7 +39,8 @@ chk("C16",
 chk("C03",
     "TLC model-checks spec/own/Ownership.tla (payloads, the four runtime containers, boxed handles; one action per API step) "
     "for AtMostOnce / ExactlyOnce-at-quiescence / NoStrand over all histories of <=9 (11) steps with 3 payloads and 5 containers; "
-    "the negative model (into() without suppressing Drop) must be refuted. Every TLC-enumerated quiescent behaviour is replayed "
+    "the negative model (into() without suppressing Drop) must be refuted; spec/own/OwnershipProof.tla proves with TLAPS (55 obligations, "
+    "re-checked on every run) that AtMostOnce / DroppedMeansOnce / LiveMeansZero hold for any payload and container sets and any number of steps. Every TLC-enumerated quiescent behaviour is replayed "
     "on the real DiplomatResult/DiplomatOption/DiplomatOwnedSlice/DiplomatCallback with drop-counting payloads and a "
     "quarantining allocator (double frees are counted, not UB), comparing drop counters after every step; seeded random "
     "histories recorded from the real types are validated by Trace_Ownership.tla.",
@@ -126,7 +127,8 @@ chk("C17",
     "spec/config/Config.tla: one action per configuration source applied in the order the tool reads them (file, command line, "
     "attribute) and Resolve for the target language; TLC checks Precedence and OnlyThatLanguage against the declarative "
     "documented rule for all 64 assignments (absent / shared / target-scoped / other-language-scoped per source) and refutes the "
-    "negative model that reads the command line before the file. Each assignment is replayed through the real binary (config.toml "
+    "negative model that reads the command line before the file; TLAPS PROVES Precedence for any set of languages "
+    "(spec/config/ConfigProof.tla, 35 obligations). Each assignment is replayed through the real binary (config.toml "
     "in kebab and snake case, --config, #[diplomat::config]) for lib_name (kotlin, nanobind), unsafe_references_in_callbacks (c, "
     "cpp, kotlin, nanobind), kotlin.domain, js.abi and demo_gen.module_name; the effective value is read from the generated "
     "output (Native.load name, package path, <lib>_ext.cpp, acceptance of callback references, legacy-vs-spec JS, import path).",
